@@ -49,6 +49,22 @@ for _k in (2, 3, 4):
     COMB[f'XOR{_k}'] = (_k, lambda a: (_xor(*a),))
     COMB[f'XNOR{_k}'] = (_k, lambda a: (_n(_xor(*a)),))
 
+# WIDE gates (audit finding 1 / known finding D33): 5..9 inputs, ground truth = the operator over ALL inputs.  kyupy simulates them
+# as the 4-input primitive of the first four pins, so netlists that contain one are outside the domain `arityOKB` of the theorems.
+WIDE = {}
+for _k in (5, 6, 7, 8, 9):
+    WIDE[f'AND{_k}'] = COMB[f'AND{_k}'] = (_k, lambda a: (_and(*a),))
+    WIDE[f'NAND{_k}'] = COMB[f'NAND{_k}'] = (_k, lambda a: (_n(_and(*a)),))
+    WIDE[f'OR{_k}'] = COMB[f'OR{_k}'] = (_k, lambda a: (_or(*a),))
+    WIDE[f'NOR{_k}'] = COMB[f'NOR{_k}'] = (_k, lambda a: (_n(_or(*a)),))
+    WIDE[f'XOR{_k}'] = COMB[f'XOR{_k}'] = (_k, lambda a: (_xor(*a),))
+    WIDE[f'XNOR{_k}'] = COMB[f'XNOR{_k}'] = (_k, lambda a: (_n(_xor(*a)),))
+
+
+def is_wide(fam): return fam in WIDE
+def narrow(fam): return fam.rstrip('0123456789') + '4'      # the primitive kyupy simulates for a wide gate
+
+
 # sequential families: logical inputs -> value captured by the state element; outputs are (state, !state)
 SEQ = {
     'DFF': (1, lambda a: a[0]),                                       # (d)
@@ -69,6 +85,9 @@ BENCH_KINDS = {
 for _k in (2, 3, 4):
     for _f in ('AND', 'NAND', 'OR', 'NOR', 'XOR', 'XNOR'):
         BENCH_KINDS[f'{_f}{_k}'] = [_f.lower(), _f, _f.capitalize(), f'{_f}{_k}', f'{_f.lower()}{_k}']
+for _k in (5, 6, 7, 8, 9):      # wide gates as real ISCAS files write them: the bare family name (and a numbered spelling)
+    for _f in ('AND', 'NAND', 'OR', 'NOR', 'XOR', 'XNOR'):
+        BENCH_KINDS[f'{_f}{_k}'] = [_f.lower(), _f, _f, f'{_f}{_k}']
 
 
 # asymmetric primitives that the simulator knows by kind prefix: a bench text may use them, and only they make the ARGUMENT ORDER
